@@ -60,6 +60,10 @@ def gen_config(rng, name, it):
         ctor["mininu"] = mininu
         par["nu"] = float(max(mininu, 10.0 ** rng.uniform(-10, 3))) \
             if it % 5 else mininu
+    if name in ("Log", "Reciprocal") or name in POWER_FAMILY:
+        if it % 11 == 4:
+            # round shift values a caller types in: exactly 1, 2, 0.5, 10
+            par["nu"] = float(max(ctor["mininu"], [1.0, 2.0, 0.5, 10.0][(it // 11) % 4]))
     if name == "Log":
         ctor["base"] = BASES[it % len(BASES)]
         tag = "base=%s" % ("None" if ctor["base"] is None else "%g" % ctor["base"])
@@ -77,6 +81,11 @@ def gen_config(rng, name, it):
     if name == "Logit":
         par["lower"] = float([0.0, -1.0, 5.0, rng.normal() * 100][it % 4])
         par["logdelta"] = float([0.0, -10.0, 10.0, rng.uniform(-10, 10)][it % 4])
+        if it % 6 == 5:
+            # a narrow interval far from the origin (a level above a distant datum): the
+            # upper bound lower + exp(logdelta) is rounded to the spacing of lower
+            par["lower"], par["logdelta"] = [(1e9, -10.0), (2.0 ** 36, -6.0), (-3e11, -4.0),
+                                             (5e14, 3.0), (1e6, -8.0)][(it // 6) % 5]
     if name == "YeoJohnson":
         lam = YJ_LAM[it % len(YJ_LAM)]
         par["lam"] = float(lam)
@@ -168,6 +177,77 @@ class Ref:
 
     # ---- point generation ------------------------------------------------------
     def sample(self, rng, n, whole_domain=False):
+        """_sample_base plus tight clusters (a few units in the last place apart) around
+        the points where the *internal* variable of the formula takes a round value
+        (0.01, 0.1, 1, 10 ...): the places where an implementation switches between an
+        expansion and the closed form"""
+        x = self._sample_base(rng, n, whole_domain)
+        if x is None or self.name in ("Identity", "Softmax"):
+            return x
+        try:
+            extra = self._round_clusters()
+        except Exception:
+            extra = None
+        if extra is None or not len(extra):
+            return x
+        extra = extra[np.isfinite(extra)]
+        k = max(1, len(extra) // 40)
+        pick = extra[int(rng.integers(0, k))::k][:60]     # a manageable share per call
+        return np.concatenate([x, pick])
+
+    def _round_clusters(self):
+        nm, p = self.name, self.p
+        near = 1.0 + np.arange(-6, 7) * 2.0 ** -50
+        pos = np.array([1e-3, 1e-2, 0.1, 0.25, 0.5, 1.0, 2.0, 5.0, 10.0, 20.0, 100.0])
+        both = np.concatenate([pos, -pos])
+        if nm == "LogSinh":
+            w = np.outer(pos, near).ravel()
+            x = (w - self.a) / self.b * p["xmax"]
+            wa = self.a + self.b * (x / p["xmax"])
+            return x[(wa >= 1e-4) & (wa <= 300) & (x / p["xmax"] > -self.a / self.b + EPSB)]
+        if nm == "Logit":
+            v = np.outer(np.array([1e-3, 1e-2, 0.1, 0.25, 0.5, 0.75, 0.9, 0.99]), near).ravel()
+            x = self.lower + v * self.delta
+            va = (x - self.lower) / ((self.lower + self.delta) - self.lower)
+            return x[(va > 0) & (va < 1)]
+        if nm in ("Log", "Reciprocal", "BoxCox2", "BoxCox1lam", "BoxCox1nu"):
+            nu, lam = p["nu"], p.get("lam", 0.0)
+            z = np.outer(pos, near).ravel()
+            x = z - nu
+            ok = x + nu > max(self.ctor.get("mininu", EPSB), 0) * (1 + 1e-9)
+            if nm not in ("Log", "Reciprocal") and lam != 0:
+                with np.errstate(all="ignore"):
+                    ok &= np.abs(lam * np.log(np.where(ok, x + nu, 1.0))) <= 12.0
+            return x[ok]
+        if nm == "BoxCox2sym":
+            nu, lam = p["nu"], p["lam"]
+            z = np.outer(pos, near).ravel()
+            x = np.concatenate([z - nu, -(z - nu)])
+            x = x[np.abs(x) > 0]
+            with np.errstate(all="ignore"):
+                ok = np.abs(lam * np.log(np.abs(x) + nu)) <= 12.0
+            if abs(lam * math.log(nu)) > 13.8:
+                return x[:0]
+            return x[ok]
+        if nm == "YeoJohnson":
+            nu, sc, lam = p["nu"], p["scale"], p["lam"]
+            w = np.outer(both, near).ravel()
+            x = (w - nu) / sc
+            wa = nu + x * sc
+            ok = np.where(wa >= EPSB, np.abs(lam * np.log1p(np.abs(wa))) <= 12.0,
+                          np.abs((2 - lam) * np.log1p(np.abs(wa))) <= 12.0)
+            return x[ok]
+        if nm == "Sinh":
+            u = np.outer(both, near).ravel()
+            return u / p["scale"] + p["nu"]
+        if nm == "Manly":
+            lam, xmax = p["lam"], p["xmax"]
+            u = np.outer(both[np.abs(both) <= 20], near).ravel()
+            x = u * xmax
+            return x[np.abs(lam * u) <= 12.0]
+        return None
+
+    def _sample_base(self, rng, n, whole_domain=False):
         """x points inside the domain and the stated conditioning region. With
         whole_domain the shifted argument may lie anywhere in (0, inf), otherwise
         only where the Jacobian is defined (x + nu > mininu)"""
